@@ -79,11 +79,13 @@ def gen_name(rng: random.Random) -> str:
 def gen_tree(rng: random.Random) -> List[str]:
     """File paths of a random directory tree (names unique within a directory, files and directories disjoint)."""
     files: List[str] = []
+    # a small pool makes the same name recur at the same depth of different branches (/x/a/p vs /y/a/q)
+    pool = [gen_name(rng) for _ in range(3)] if rng.random() < 0.4 else None
 
     def go(prefix: str, depth: int) -> None:
         names: List[str] = []
         for _ in range(rng.choice([1, 2, 3, 4])):
-            n = gen_name(rng)
+            n = rng.choice(pool) if pool else gen_name(rng)
             if n in (".", "..") or n in names:
                 continue
             names.append(n)
